@@ -181,4 +181,88 @@ theorem doHuffman_full (c : Cutter) (hc : c.OK) (ll dl : Array Nat) (hl hd : Huf
               rw [hup]; exact hspec)
           hcd hT hL.symm hfit isFirst
 
+attribute [local irreducible] Spec.fixedLitLens Spec.fixedDistLens Spec.fixedLit Spec.fixedDist
+
+theorem fixed_full (s : Bytes) (c : Cutter) (hc : c.OK) (hb : c.bits.bytes = s) (p : Nat)
+    (hp : c.bits.pos = p + 3) (out : Bytes) (p1 : Nat) (out1 : Bytes) (hty : bitsLE s (p + 1) 2 = 1)
+    (hbody : blockBody s none 0 p out = .next p1 out1) (hcd : c.decodedLen = (out.size : Int))
+    (hT : (out1.size : Int) < 2147483648) (hfit : p1 ≤ 8 * c.maxEncodedLen) (isFirst : Bool) :
+    Walked (c.doStaticHuffman isFirst) := by
+  have e1 : ¬ ((1 : Nat) = 0) := by omega
+  have hspec : huffBlock fixedLit fixedDist 7 5 s none 0 (8 * s.size + 1) (p + 3) out = .next p1 out1 := by
+    simpa only [blockBody, hty, e1, if_false, if_true] using hbody
+  simp only [Cutter.doStaticHuffman]
+  rw [static_ll, static_dl]
+  exact doHuffman_full c hc fixedLitLens fixedDistLens fixedLit fixedDist fixedLit_some fixedDist_some
+    (by rw [fixedLit_256.1]; omega) (by rw [fixedDist_size]; omega) 7 5 (8 * s.size + 1) p1 out out1
+    (by rw [hb, hp]; exact hspec) hcd hT hfit isFirst
+
+theorem dynamic_full (s : Bytes) (c : Cutter) (hc : c.OK) (hb : c.bits.bytes = s) (p : Nat)
+    (hp : c.bits.pos = p + 3) (out : Bytes) (p1 : Nat) (out1 : Bytes) (hty : bitsLE s (p + 1) 2 = 2)
+    (hbody : blockBody s none 0 p out = .next p1 out1) (hcd : c.decodedLen = (out.size : Int))
+    (hT : (out1.size : Int) < 2147483648) (hfit : p1 ≤ 8 * c.maxEncodedLen) (isFirst : Bool) :
+    Walked (c.doDynamicHuffman isFirst) := by
+  have e0 : ¬ ((2 : Nat) = 0) := by omega
+  have e1 : ¬ ((2 : Nat) = 1) := by omega
+  simp only [blockBody, hty, e0, e1, if_false, if_true] at hbody
+  cases hdh : dynamicHeader s (p + 3) with
+  | truncated => rw [hdh] at hbody; simp at hbody
+  | corrupt => rw [hdh] at hbody; simp at hbody
+  | ok hl hd minL ph =>
+    rw [hdh] at hbody
+    simp only [] at hbody
+    obtain ⟨lens, hcH, d⟩ := dynamicHeader_ok s (p + 3) hl hd minL ph hdh
+    rcases doDynamicHuffman_eq s c hc hb (p + 3) hp hl hd minL ph lens hcH d isFirst with
+      ⟨c', e, he, hee⟩ | ⟨bits5, lh, he, i5, y5, q5, shl, hlsz⟩
+    · rw [he]
+      right
+      rcases hee with rfl | rfl <;> exact ⟨_, rfl, by simp, by simp, by simp⟩
+    · rw [he]
+      have hnlit := d.nlit
+      have hndist := d.ndist
+      have hmax := hc.max
+      rw [hb] at hmax
+      exact doHuffman_full ⟨bits5, c.maxEncodedLen, c.decodedLen, c.endCodeBits, c.endCodeNBits, lh, c.dHuff⟩
+        ⟨i5, by show c.maxEncodedLen ≤ bits5.bytes.size; rw [y5]; exact hmax, shl, hc.d⟩ _ _ hl hd
+        d.hlE d.hdE (by simp [Array.size_extract]; omega) (by simp [Array.size_extract]; omega) minL hd.minLen
+        (8 * s.size + 1) p1 out out1
+        (by show huffBlock hl hd minL hd.minLen bits5.bytes none 0 (8 * s.size + 1) bits5.pos out = .next p1 out1
+            rw [y5, q5]; exact hbody)
+        hcd hT hfit isFirst
+
+theorem stored_full (s : Bytes) (c : Cutter) (hc : c.OK) (hb : c.bits.bytes = s) (p : Nat)
+    (hp : c.bits.pos = p + 3) (out : Bytes) (p1 : Nat) (out1 : Bytes) (hty : bitsLE s (p + 1) 2 = 0)
+    (hbody : blockBody s none 0 p out = .next p1 out1) (hcd : c.decodedLen = (out.size : Int))
+    (hT : (out1.size : Int) < 2147483648) (hfit : p1 ≤ 8 * c.maxEncodedLen) : Walked c.doStored := by
+  obtain ⟨g1, g2, g3, g4, g5⟩ := stored_body s p out p1 out1 hty hbody
+  generalize hqd : (p + 3 + 7) / 8 = q at *
+  obtain ⟨hu, hup⟩ := Inv.unread hc.inv
+  have hnb := unread_nBits_lt c.bits
+  have hidx : c.bits.unread.index = q := by
+    have := hu.nBits_le
+    have h1 : 8 * c.bits.unread.index - c.bits.unread.nBits = p + 3 := by
+      have : c.bits.unread.pos = p + 3 := by rw [hup, hp]
+      exact this
+    omega
+  have hub : c.bits.unread.bytes = s := by rw [unread_bytes, hb]
+  generalize hlend : (s.getD q 0).toNat + 256 * (s.getD (q + 1) 0).toNat = len at *
+  have hesz : (s.extract (q + 4) (q + 4 + len)).size = len := by simp [Array.size_extract]; omega
+  have ho1 : out1.size = out.size + len := by rw [g5]; simp [Array.size_append, hesz]
+  left
+  simp only [Cutter.doStored, hidx, hub]
+  have hfit' : ¬ (c.maxEncodedLen < q ∨ c.maxEncodedLen - q < 4) := by omega
+  simp only [hfit', if_false]
+  rw [getElem?_eq_getD s q (by omega), getElem?_eq_getD s (q + 1) (by omega), getElem?_eq_getD s (q + 2) (by omega),
+    getElem?_eq_getD s (q + 3) (by omega)]
+  simp only []
+  rw [or_shl8 _ _ (s.getD q 0).toNat_lt, or_shl8 _ _ (s.getD (q + 2) 0).toNat_lt, hlend]
+  have hsum : ¬ (len + ((s.getD (q + 2) 0).toNat + 256 * (s.getD (q + 3) 0).toNat) ≠ 0xFFFF) := by omega
+  simp only [hsum, if_false]
+  have hw : wrap32 (c.decodedLen + (len : Int)) = ((out.size + len : Nat) : Int) := by
+    rw [hcd]; rw [wrap32_range] <;> omega
+  rw [hw]
+  have hnn : ¬ (((out.size + len : Nat) : Int) < 0) := by omega
+  have hrem : c.maxEncodedLen - (q + 4) ≥ len := by omega
+  simp only [hnn, if_false, hrem, if_true]
+
 end WuffsVerif.Flate.Cut
